@@ -429,11 +429,13 @@ func (e *lbEngine) require(in *lbInst, st *lstate, instr ssa.Instruction, rule, 
 	}
 	ob.total++
 	var failed []string
+	proveBudgetInit = 3000
 	for i, l := range need {
 		if !st.proves(e.at, lfact{l: l}) {
 			failed = append(failed, fmt.Sprintf("%s (needs %s >= 0)", what[i], e.at.show(normGE(l))))
 		}
 	}
+	proveBudgetInit = 90
 	if len(failed) > 0 {
 		ob.failed++
 		mode := ""
@@ -1759,11 +1761,13 @@ func (e *lbEngine) requireAt(st *lstate, fn *ssa.Function, instr ssa.Instruction
 	}
 	ob.total++
 	var failed []string
+	proveBudgetInit = 3000
 	for i, l := range need {
 		if !st.proves(e.at, lfact{l: l}) {
 			failed = append(failed, fmt.Sprintf("%s (needs %s >= 0)", what[i], e.at.show(normGE(l))))
 		}
 	}
+	proveBudgetInit = 90
 	if len(failed) > 0 {
 		ob.failed++
 		d := fmt.Sprintf("not proved on the edge from block %d (%s): %s; reached through %s", instr.Block().Index, e.w.pos(lastPos(instr.Block())), strings.Join(failed, ", "), e.context())
